@@ -20,7 +20,9 @@ CLASSES = ["ObjectClassDescription", "AttributeTypeDescription", "DITContentRule
 
 def writer_escape(model: Model):
     """The character class the writer escapes and its replacement format, from _encode_qdstring."""
-    sites = [s for s in find_sites(model) if s.module == SCHEMA and s.api == "sub" and s.func.endswith("_encode_qdstring")]
+    from ..anchors import schema as schema_anchors
+    enc = schema_anchors(model).encoder
+    sites = [s for s in find_sites(model) if s.module == SCHEMA and s.api == "sub" and s.func == enc.qualname]
     if len(sites) != 1:
         raise AnalysisError(f"expected one re.sub in the qdstring encoder, found {len(sites)}")
     s = sites[0]
@@ -54,7 +56,8 @@ def callback_format(model: Model, fi: FuncInfo, cb: ast.expr) -> Optional[Tuple[
 def unescape_single_pass(model: Model, run: Run) -> None:
     """U1: the qdstring un-escaper decodes all escapes in one simultaneous substitution. A chain of
     str.replace calls is order dependent as soon as one replacement's output can start another's input."""
-    fi = model.func(f"{SCHEMA}._parse_qdstring")
+    from ..anchors import schema as schema_anchors
+    fi = schema_anchors(model).decoder
     subs = [s for s in find_sites(model) if s.func == fi.qualname and s.api == "sub"]
     chains = []
     pairs = []          # (search, replacement, node) in application order
@@ -126,7 +129,9 @@ def check(model: Model, run: Run) -> None:
     if not ok:
         run.fail(Finding("H1-escape-format", wsite.func, f"format={fmt}", "the qdstring escape is not written as backslash + two hex digits", model.loc(SCHEMA, wsite.node)))
     # reader's un-escape pattern
-    rsites = [s for s in find_sites(model) if s.func == f"{SCHEMA}._parse_qdstring" and s.api == "sub"]
+    from ..anchors import schema as schema_anchors
+    dec = schema_anchors(model).decoder
+    rsites = [s for s in find_sites(model) if s.func == dec.qualname and s.api == "sub"]
     reader_lang = None
     if len(rsites) == 1:
         reader_lang = Lang(build(rsites[0].pattern, rsites[0].flags, "fullmatch"))
@@ -163,7 +168,7 @@ def check(model: Model, run: Run) -> None:
         ok = w1 is None       # decoding further escapes is harmless for the round trip: the writer never emits them
         run.ob("H4-reader-escape-language", ok, {"missing": w1, "extra": w2})
         if not ok:
-            run.fail(Finding("H4-reader-escape-language", f"{SCHEMA}._parse_qdstring", f"missing={w1} extra={w2}", "the un-escape pattern does not decode exactly \\27 and \\5c/\\5C", model.loc(SCHEMA, rsites[0].node)))
+            run.fail(Finding("H4-reader-escape-language", dec.qualname, f"missing={w1} extra={w2}", "the un-escape pattern does not decode exactly \\27 and \\5c/\\5C", model.loc(SCHEMA, rsites[0].node)))
     unescape_single_pass(model, run)
     # ---- (3) keyword skeleton of __str__ is a sentence of the pattern ------------------
     for cname in CLASSES:
